@@ -110,6 +110,33 @@ func loadChecks() (*checksFile, error) {
 	if err := json.Unmarshal(data, &cf); err != nil {
 		return nil, fmt.Errorf("checks.json: %v", err)
 	}
+	// fragments: harness/checks.d/*.json (same format; units of a property are appended)
+	frags, _ := filepath.Glob(filepath.Join(verifRoot, "harness", "checks.d", "*.json"))
+	sort.Strings(frags)
+	for _, f := range frags {
+		data, err := os.ReadFile(f)
+		if err != nil {
+			return nil, err
+		}
+		var fc checksFile
+		if err := json.Unmarshal(data, &fc); err != nil {
+			return nil, fmt.Errorf("%s: %v", f, err)
+		}
+		if cf.Properties == nil {
+			cf.Properties = map[string]propCfg{}
+		}
+		for id, pc := range fc.Properties {
+			cur := cf.Properties[id]
+			cur.Units = append(cur.Units, pc.Units...)
+			cf.Properties[id] = cur
+		}
+		for k, v := range fc.DefaultStubs {
+			if cf.DefaultStubs == nil {
+				cf.DefaultStubs = map[string]string{}
+			}
+			cf.DefaultStubs[k] = v
+		}
+	}
 	return &cf, nil
 }
 
